@@ -325,4 +325,15 @@ void run_C13(void) {
         ops_ring_history_case(which, N, aut ? PA[rep % 8] : 4 * (int64_t)(1 + rep % 7), (rep & 2) ? N : 2, aut ? ((rep & 2) ? -1 : 3) : 1, rep < 16, rep, "long_history_calls");
       }
   }
+  // the entry points of this property called a second time on the SAME buffers holding other data (new values, two limbs exchanged,
+  // one word moved between limbs): must equal a fresh call on that data (results or operands remembered by address)
+  {
+    static const char* const RNAMES[] = {"vec_znx_copy(res==a)", "vec_znx_negate(res==a)", "vec_znx_rotate(res==a)", "vec_znx_automorphism(res==a)", "vec_znx_normalize_base2k(res==a)", "vec_znx_add(res==a)", "vec_znx_sub(res==b)", "vec_znx_big_add(res==a)", "vec_znx_big_sub(res==b)", "vec_znx_add(res==b)", "vec_znx_sub(res==a)", "vec_znx_big_rotate(res==a)", "vec_znx_big_automorphism(res==a)", "vec_znx_idft(res==a_dft)", "reim_fftvec_mul(r==a)", "reim_fftvec_addmul(r==b)", "cplx_fftvec_mul(r==b)"};
+    static const uint64_t RN[] = {2, 16, 64, 1024};
+    for (size_t i = 0; i < ARRAY_LEN(RN); i++)
+      for (int cfg = DISP_NATIVE; cfg >= DISP_GENERIC; cfg--) {
+        if (cfg == DISP_GENERIC && (i & 1)) continue;
+        ops_recontent_case("C13 entry points", RNAMES, (int)ARRAY_LEN(RNAMES), RN[i], cfg, G.thorough ? 40 : 6, (unsigned)i, "same_buffers_other_data_calls");
+      }
+  }
 }
